@@ -7,12 +7,16 @@ func init() {
 		ID:         "C40",
 		Level:      "other",
 		Technique:  "unordered-iteration classification over the generator packages + who-may-call rule on nondeterminism sources + determinism option at the raw-descriptor marshal site (static)",
-		Explain:    "Decides structural necessary conditions of deterministic code generation: (1) every iteration over a Go map or a direct Message.Range/Map.Range in the generator packages (compiler/protogen, cmd/protoc-gen-go, internal_gengo, struct-tag and naming helpers) is commutative, collected-then-sorted before use, or only selects an error; (2) no generator function reads a source of run-to-run variation (clock, randomness, environment, pid, runtime introspection, %p); (3) the raw descriptor embedded in generated code is marshaled with Deterministic: true.",
-		NotCovered: "independence of the order in which files are requested (slice order of the request), totality of sort comparators on equal keys, and byte-identity of the response on concrete requests.",
+		Explain:    "Decides structural necessary conditions of deterministic code generation: (1) every iteration over a Go map or a direct Message.Range/Map.Range in the generator packages (compiler/protogen, cmd/protoc-gen-go, internal_gengo, struct-tag and naming helpers) is commutative, collected-then-sorted before use by a comparator that cannot tie on distinct elements (it compares the unique iteration key or every component of the element), or only selects an error; (2) no generator function reads a source of run-to-run variation (clock, randomness, environment, pid, runtime introspection, %p); (3) the raw descriptor embedded in generated code is marshaled with Deterministic: true; (4) per-file generation (methods of *protogen.GeneratedFile) never writes plugin-wide state, so one file's bytes cannot depend on which files were generated before it.",
+		NotCovered: "order dependence through state other than the Plugin struct (package-level variables are covered only by the nondeterminism-source rule), comparators that delegate to other functions or call methods on the element (not judged), and byte-identity of the response on concrete requests.",
 		Quick:      all("./compiler/protogen", "./cmd/protoc-gen-go/..."),
 		Thorough:   all("./..."),
 		Run: func(c *Ctx) {
-			c.ruleOrder("R-ORDER", generatorPkgs, orderOpts{Floor: 5})
+			c.ruleOrder("R-ORDER", generatorPkgs, orderOpts{Floor: 5, Exempt: map[string]string{
+				"compiler/protogen.(*GeneratedFile).Content #1 comparator": "the compared component [1] is the map key itself passed through Options.ImportRewriteFunc; protoc-gen-go (the subject of C40) sets no ImportRewriteFunc, so [1] is the unique import path and no two elements tie",
+				"compiler/protogen.(*GeneratedFile).Content #2 comparator": "same slice and comparator as #1: [1] is the unique import path when no ImportRewriteFunc is configured (protoc-gen-go configures none)",
+			}})
+			c.ruleGenFileIsolation("R-GEN-FILE-ISOLATION")
 			c.ruleGenNondetSource("R-GEN-NONDET-SOURCE", generatorPkgs, 150)
 			c.ruleGenDetMarshal("R-GEN-DET-MARSHAL", generatorPkgs, map[string]string{
 				"compiler/protogen.run marshal #1":         "marshals the CodeGeneratorResponse itself: its schema has only scalar, string and repeated-message fields (no map fields, no extensions), and the fast path emits fields in field-number order in both modes",
